@@ -66,6 +66,18 @@ pub struct ScriptedBus {
     pub exhausted: bool,
 }
 
+thread_local! {
+    /// rotates the kind of the injected bus errors between runs
+    pub static ERR_KIND_SHIFT: std::cell::Cell<usize> = const { std::cell::Cell::new(0) };
+}
+
+pub fn run_call_with_kind(sign: &Sign, name: &str, pages: &[Page<'static>], _bus: &Rc<RefCell<ScriptedBus>>, kind: usize) -> String {
+    ERR_KIND_SHIFT.with(|c| c.set(kind));
+    let o = run_call(sign, name, pages);
+    ERR_KIND_SHIFT.with(|c| c.set(0));
+    o
+}
+
 impl SignBus for ScriptedBus {
     fn process_message<'a>(&mut self, message: Message<'_>) -> Result<Option<Message<'a>>, Box<dyn Error + Send + Sync>> {
         let m = own(message);
@@ -74,18 +86,35 @@ impl SignBus for ScriptedBus {
             None => {
                 self.exhausted = true;
                 self.log.push((m, Reply::BusError));
-                Err(Box::new(io::Error::new(io::ErrorKind::Other, "script exhausted")))
+                Err(bus_error(n))
             }
             Some(r) => {
                 self.log.push((m, r.clone()));
                 match r {
                     Reply::None => Ok(None),
-                    Reply::BusError => Err(Box::new(io::Error::new(io::ErrorKind::Other, "scripted bus error"))),
+                    Reply::BusError => Err(bus_error(n + ERR_KIND_SHIFT.with(|c| c.get()))),
                     Reply::Msg(x) => Ok(Some(j::msg_from(&j::msg(&x)))),
                 }
             }
         }
     }
+}
+
+/// Bus errors of many kinds: bare I/O errors of every common kind, and the same wrapped in a FrameError.
+pub fn bus_error(n: usize) -> Box<dyn Error + Send + Sync> {
+    const KINDS: [io::ErrorKind; 9] = [
+        io::ErrorKind::Other,
+        io::ErrorKind::Interrupted,
+        io::ErrorKind::TimedOut,
+        io::ErrorKind::WouldBlock,
+        io::ErrorKind::UnexpectedEof,
+        io::ErrorKind::BrokenPipe,
+        io::ErrorKind::InvalidData,
+        io::ErrorKind::ConnectionReset,
+        io::ErrorKind::WriteZero,
+    ];
+    let e = io::Error::new(KINDS[n % KINDS.len()], "scripted bus error");
+    if (n / KINDS.len()) % 2 == 0 { Box::new(e) } else { Box::new(flipdot_core::FrameError::from(e)) }
 }
 
 pub fn outcome<T>(r: &Result<Result<T, SignError>, String>, style: impl Fn(&T) -> Option<PageFlipStyle>) -> String {
@@ -243,7 +272,7 @@ fn plausible(rng: &mut StdRng, me: u16, name: &str, m: &Message<'static>, att: &
 }
 
 fn adversarial(rng: &mut StdRng, me: u16) -> Reply {
-    let near = [me, me.wrapping_add(1), me.wrapping_sub(1), me ^ 0x100, 0, 0xFFFF];
+    let near = [me, me.wrapping_add(1), me.wrapping_sub(1), me ^ 0x100, me ^ 0x8000, me ^ 0x80, 0, 0xFFFF];
     let a = Address(near[rng.gen_range(0..near.len())]);
     match rng.gen_range(0..12) {
         0 | 1 => Reply::Msg(Message::ReportState(a, j::STATES[rng.gen_range(0..13)])),
@@ -309,7 +338,7 @@ pub fn record_adversarial(a: &Args, out: &mut TraceOut, salt: u64, runs: usize) 
 
 /// Cooperative-or-failing transfers with pages of arbitrary dimensions (C09): the sign acknowledges everything and
 /// reports failure 0, 1, 2 or 3 times before success.
-pub fn record_transfers(a: &Args, out: &mut TraceOut) -> Value {
+pub fn record_transfers(a: &Args, out: &mut TraceOut, heavy: bool) -> Value {
     let thorough = a.tier == "thorough";
     let mut rng = StdRng::seed_from_u64(a.seed ^ 0xC09);
     let mut exchanges = 0usize;
@@ -369,7 +398,7 @@ pub fn record_transfers(a: &Args, out: &mut TraceOut) -> Value {
     let mut dims: Vec<(u32, u32)> = vec![(0, 0), (1, 1), (12, 8), (13, 8), (28, 8), (5, 20), (7, 33), (100, 16), (255, 255)];
     if thorough {
         dims.extend_from_slice(&[(4092, 8), (65516, 8), (65532, 1), (65532, 8), (8190, 64), (4095, 128)]);
-    } else {
+    } else if heavy {
         dims.extend_from_slice(&[(65532, 1), (65516, 8)]);
     }
     for (k, (w, h)) in dims.iter().enumerate() {
@@ -384,6 +413,18 @@ pub fn record_transfers(a: &Args, out: &mut TraceOut) -> Value {
         one(out, "send_pages", addrs[k % 4], ALL_TYPES[k % 11], vec![small.clone(), pg.clone()], failures, 0);
         one(out, "send_pages", addrs[(k + 1) % 4], ALL_TYPES[(k + 3) % 11], vec![pg, small], 0, 0);
     }
+    // long lists: more than 256 pages; a running chunk total beyond 4096 spread over several pages
+    if heavy {
+        let many: Vec<Page<'static>> = (0..300).map(|i| { let mut b = vec![0xFFu8; 16]; b[0] = i as u8; b[5] = (i >> 8) as u8; page_of(&b) }).collect();
+        one(out, "send_pages", 3, ALL_TYPES[0], many, 1, 0);
+        let big = Page::new(PageId(1), 65532, 1);
+        let two = Page::new(PageId(2), 28, 8);
+        let three = Page::new(PageId(3), 44, 8);
+        one(out, "send_pages", 0xFFFF, ALL_TYPES[1], vec![big.clone(), two.clone(), three.clone()], 0, 0);
+        one(out, "send_pages", 0, ALL_TYPES[2], vec![three, big, two], 0, 0);
+        let mid: Vec<Page<'static>> = (0..40).map(|i| Page::new(PageId(i as u8), 212, 64)).collect();
+        one(out, "send_pages", 0x100, ALL_TYPES[3], mid, 0, 0);
+    }
     // lists of 0..5 random small pages and from_bytes pages
     for k in 0..(if thorough { 200 } else { 30 }) {
         let pages = random_pages(&mut rng, 5);
@@ -394,18 +435,108 @@ pub fn record_transfers(a: &Args, out: &mut TraceOut) -> Value {
 
 pub fn record_c09(a: &Args) -> usize {
     let mut out = TraceOut::new(&a.out, "C09", a.shards);
-    let t = record_transfers(a, &mut out);
+    let t = record_transfers(a, &mut out, true);
     let adv = record_adversarial(a, &mut out, 0xC09A, if a.tier == "thorough" { 3000 } else { 300 });
     println!("INFO {}", json!({"transfers": t, "adversarial": adv}));
     out.finish()
 }
 
+/// show / load-next against a sign that stays in progress for a long time (polling is not bounded by the protocol),
+/// and bus errors of every kind at every step of a cooperative conversation.
+pub fn record_directed_ctl(a: &Args, out: &mut TraceOut) -> Value {
+    let thorough = a.tier == "thorough";
+    let mut runs = 0usize;
+    let polls: Vec<usize> = if thorough { vec![0, 1, 50, 299, 300, 301, 1000, 20_000] } else { vec![0, 3, 299, 300, 301, 1200] };
+    for (k, &n) in polls.iter().enumerate() {
+        for name in ["show", "load"] {
+            out.balance();
+            let me = [3u16, 0xFFFF][k % 2];
+            let a_ = Address(me);
+            let (trigger, inprog, target, op) = if name == "show" {
+                (State::PageLoaded, State::PageShowInProgress, State::PageShown, Operation::ShowLoadedPage)
+            } else {
+                (State::PageShown, State::PageLoadInProgress, State::PageLoaded, Operation::LoadNextPage)
+            };
+            let mut served = 0usize;
+            let bus = Rc::new(RefCell::new(ScriptedBus {
+                next: Box::new(move |i, m| {
+                    Some(match m {
+                        Message::QueryState(_) if i == 0 => Reply::Msg(Message::ReportState(a_, trigger)),
+                        Message::RequestOperation(_, _) => Reply::Msg(Message::AckOperation(a_, op)),
+                        Message::QueryState(_) => {
+                            if served < n {
+                                served += 1;
+                                Reply::Msg(Message::ReportState(a_, if served % 2 == 0 && n > 10 { State::PageLoadInProgress } else { inprog }))
+                            } else {
+                                Reply::Msg(Message::ReportState(a_, target))
+                            }
+                        }
+                        _ => Reply::None,
+                    })
+                }),
+                log: vec![],
+                exhausted: false,
+            }));
+            let sign = Sign::new(bus.clone(), a_, ALL_TYPES[k % 11]);
+            let outc = run_call(&sign, name, &[]);
+            let b = bus.borrow();
+            emit_conversation(out, name, me, ALL_TYPES[k % 11], &[], &b.log, &outc);
+            runs += 1;
+        }
+    }
+    // a bus error (of a different kind each time) at every step of a cooperative conversation of every call
+    let names = ["configure", "configure_if_needed", "send_pages", "show", "load", "shut_down"];
+    let mut kind = 0usize;
+    for name in names {
+        for fail_at in 0..(if name == "send_pages" { 14 } else { 8 }) {
+            for rep in 0..(if thorough { 18 } else { 3 }) {
+                kind += 1;
+                let me = 3u16;
+                let a_ = Address(me);
+                let nm = name.to_string();
+                let pages = if name == "send_pages" { vec![page_of(&[1u8; 32]), page_of(&[2u8; 16])] } else { vec![] };
+                let k2 = kind + rep * 7;
+                let bus = Rc::new(RefCell::new(ScriptedBus {
+                    next: Box::new(move |i, m| {
+                        if i == fail_at {
+                            return Some(Reply::BusError);
+                        }
+                        let _ = k2;
+                        Some(match m {
+                            Message::Hello(_) => Reply::Msg(Message::ReportState(a_, if nm == "configure_if_needed" { State::PixelsFailed } else { State::ReadyToReset })),
+                            Message::RequestOperation(_, op) => Reply::Msg(Message::AckOperation(a_, *op)),
+                            Message::QueryState(_) => Reply::Msg(Message::ReportState(a_, match nm.as_str() {
+                                "send_pages" => State::PixelsReceived,
+                                "show" => if i == 0 { State::PageLoaded } else { State::PageShown },
+                                "load" => if i == 0 { State::PageShown } else { State::PageLoaded },
+                                _ => State::ConfigReceived,
+                            })),
+                            _ => Reply::None,
+                        })
+                    }),
+                    log: vec![],
+                    exhausted: false,
+                }));
+                // the error-kind rotation is shifted per run so that every kind meets every step
+                let sign = Sign::new(bus.clone(), a_, ALL_TYPES[kind % 11]);
+                let outc = run_call_with_kind(&sign, name, &pages, &bus, k2);
+                let b = bus.borrow();
+                emit_conversation(out, name, me, ALL_TYPES[kind % 11], &pages, &b.log, &outc);
+                runs += 1;
+            }
+        }
+    }
+    json!({"directed_runs": runs})
+}
+
 pub fn record_c10(a: &Args) -> usize {
     let mut out = TraceOut::new(&a.out, "C10", a.shards);
+    let d = record_directed_ctl(a, &mut out);
+    println!("INFO {}", json!({"directed": d}));
     let adv = record_adversarial(a, &mut out, 0xC10, if a.tier == "thorough" { 40_000 } else { 2_000 });
     let mut small = Args { tier: "quick".into(), seed: a.seed, out: a.out.clone(), shards: a.shards, rest: vec![] };
     small.tier = "quick".into();
-    let t = record_transfers(&small, &mut out);
+    let t = record_transfers(&small, &mut out, false);
     println!("INFO {}", json!({"adversarial": adv, "transfers": t}));
     out.finish()
 }
@@ -413,7 +544,8 @@ pub fn record_c10(a: &Args) -> usize {
 pub fn record_c11(a: &Args) -> usize {
     let mut out = TraceOut::new(&a.out, "C11", a.shards);
     let adv = record_adversarial(a, &mut out, 0xC11, if a.tier == "thorough" { 40_000 } else { 2_000 });
-    println!("INFO {}", json!({"adversarial": adv}));
+    let d = record_directed_ctl(a, &mut out);
+    println!("INFO {}", json!({"adversarial": adv, "directed": d}));
     out.finish()
 }
 
